@@ -231,6 +231,10 @@ func checkC19(c *Ctx, r *Report) {
 		r.Check(st.TS.Order[len(st.TS.Order)-1] == "CodeLast", "C19.c", "R2 ORDER", "Builder.TsGenFromString/last-write-is-epilogue", "Builder/TsGenCode.go",
 			"the last WriteString is b.CodeLast", "the last WriteString is b."+st.TS.Order[len(st.TS.Order)-1]+", not the epilogue")
 	}
+	// "stops with an error for any reason attributable to the input (… undefined or unproductive symbol …)": the file is
+	// protected by those rejections happening at all — a grammar that should have been refused and is processed
+	// instead replaces the file with a parser for nothing (C12 as a whole)
+	includePrereq(c, r, "C19.d", checkC12)
 }
 
 // c19ErrorsAbort — a generation that failed must not look like one that succeeded: the error of each step that can
